@@ -82,6 +82,16 @@ class Scratch:
             return f.read()
 
 
+MEM_LIMIT = int(os.environ.get("VERIF_MEM_GB", "16")) * (1 << 30)
+
+
+def _limit():
+    # address-space guard for the whole tool process tree: a runaway CBMC query then fails (-> undecided)
+    # instead of exhausting the machine (there is no swap)
+    import resource
+    resource.setrlimit(resource.RLIMIT_AS, (MEM_LIMIT, MEM_LIMIT))
+
+
 def run(cmd, cwd=None, env=None, timeout=None, stdin=None):
     """Run a command, return (rc, stdout+stderr, seconds). rc=-9 on timeout."""
     e = dict(os.environ)
@@ -90,7 +100,7 @@ def run(cmd, cwd=None, env=None, timeout=None, stdin=None):
         e.update(env)
     t0 = time.time()
     try:
-        p = subprocess.run(cmd, cwd=cwd, env=e, timeout=timeout, input=stdin,
+        p = subprocess.run(cmd, cwd=cwd, env=e, timeout=timeout, input=stdin, preexec_fn=_limit,
                            stdout=subprocess.PIPE, stderr=subprocess.STDOUT, text=True)
         return p.returncode, p.stdout, time.time() - t0
     except subprocess.TimeoutExpired as ex:
@@ -109,9 +119,10 @@ def load_known_findings():
 
 
 def write_replay(prop, ob, extra=None):
-    os.makedirs(os.path.join(VERIF, "replays"), exist_ok=True)
+    rdir = os.environ.get("VERIF_REPLAY_DIR", os.path.join(VERIF, "replays"))
+    os.makedirs(rdir, exist_ok=True)
     safe = ob.name.replace("/", "_").replace(" ", "_").replace(":", "_")
-    path = os.path.join(VERIF, "replays", "%s-%s.json" % (prop, safe))
+    path = os.path.join(rdir, "%s-%s.json" % (prop, safe))
     d = {"property": prop, "failed_obligation": ob.name, "backend": ob.backend,
          "functions_under_contract": ob.functions, "detail": ob.detail,
          "counterexample": ob.counterexample,
@@ -125,7 +136,8 @@ def write_replay(prop, ob, extra=None):
 
 def write_evidence(prop, tier, seed, level, obligations, wall, assumptions,
                    trusted_base, checker_cmd, explanation, violations, extra=None):
-    os.makedirs(os.path.join(VERIF, "evidence"), exist_ok=True)
+    edir = os.environ.get("VERIF_EVIDENCE_DIR", os.path.join(VERIF, "evidence"))
+    os.makedirs(edir, exist_ok=True)
     n = len(obligations)
     nd = sum(1 for o in obligations if o.status == DISCHARGED)
     fns = sorted({f for o in obligations for f in o.functions})
@@ -159,6 +171,6 @@ def write_evidence(prop, tier, seed, level, obligations, wall, assumptions,
         cov.update(extra)
     ev = {"property_id": prop, "tier": tier, "seed": seed, "level": level, "coverage": cov,
           "assumptions": assumptions, "wall_s": round(wall, 2), "violations": violations}
-    with open(os.path.join(VERIF, "evidence", "%s.json" % prop), "w") as f:
+    with open(os.path.join(edir, "%s.json" % prop), "w") as f:
         json.dump(ev, f, indent=1, default=str)
     return ev
